@@ -212,7 +212,7 @@ def impl(case):
         cap["cnf"] = [[int(l) for l in c] for c in clauses]
         cap["assumptions"] = [int(l) for l in (kw.get("assumptions") or [])]
         old = signal.signal(signal.SIGALRM, _alarm)
-        signal.setitimer(signal.ITIMER_REAL, SAT_TIMEOUT)
+        signal.setitimer(signal.ITIMER_REAL, SAT_TIMEOUT * (8 if case.get("big") else 1))
         try:
             r = real(clauses, **kw)
         finally:
@@ -307,7 +307,15 @@ def run_model(cases, outs, mode):
     """Returns (protocol constraints per case, parsed replies).  A case marked `"big": true` (routing
     family, domains too large for exhaustive enumeration) is sent with mode bit 3 (no enumeration)."""
     pcs = [proto_model(c) for c in cases]
-    reqs = [to_request(c, pc, o, (mode | 8) if c.get("big") else mode) for c, pc, o in zip(cases, pcs, outs)]
+    def m(c, o):  # routing family: never run the DFS mirror (it would search for minutes), big: no enumeration
+        mm = (mode & ~2) if c.get("family") == "routing" else mode
+        if c.get("big"):
+            return mm | 8
+        # the reference DPLL is only needed to attribute an INFEASIBLE answer of the SAT path
+        if o[0] == "ok" and o[1].get("status") == "INFEASIBLE" and o[1].get("cnf") is not None:
+            mm |= 16
+        return mm
+    reqs = [to_request(c, pc, o, m(c, o)) for c, pc, o in zip(cases, pcs, outs)]
     replies = Driver("Cp").run(reqs, chunks=16)
     for rp in replies:
         if rp and rp[0] == "error":
@@ -510,8 +518,8 @@ def gen_routing(rng, big_ok=True):
     """Family where the back-end chosen by solver='auto' matters: an operator-built sum over k variables
     (random association, reversed operands, unit coefficients) ==/!= a target, with all_different, over domains
     large enough that a leaf-check-only DFS does not finish; a planted assignment keeps `==` feasible."""
-    k = rng.choice([2, 3, 3, 4, 5, 6, 7, 8]) if big_ok else rng.choice([2, 3, 3, 4])
-    d = k + rng.choice([1, 2, 3, 4])
+    k = rng.choice([2, 3, 3, 4, 5, 6, 6, 7]) if big_ok else rng.choice([2, 3, 3, 4])
+    d = k + rng.choice([1, 2, 3])
     vars_ = [[0, d] for _ in range(k)]
     top = list(range(d - k + 1, d + 1))
     plant = top if rng.random() < 0.7 else rng.sample(range(0, d + 1), k)
@@ -569,6 +577,140 @@ def gen_hints(rng, vars_, plant):
     if rng.random() < 0.15:
         h["nope"] = 1
     return h
+
+
+# ---------------------------------------------------------------------------
+# structural shrinking (delta debugging over the generator's structure)
+# ---------------------------------------------------------------------------
+
+def _expr_variants(e):
+    """Smaller expressions: a child in place of the node, constants towards 0/1, children shrunk."""
+    if e[0] == "c":
+        return [["c", v] for v in (0, 1) if abs(v) < abs(e[1]) or (v == 0 and e[1] != 0)]
+    if e[0] == "v":
+        return []
+    out = [e[1], e[2]]
+    out += [[e[0], a, e[2]] for a in _expr_variants(e[1])]
+    out += [[e[0], e[1], b] for b in _expr_variants(e[2])]
+    return out
+
+
+def _con_variants(c):
+    k = c[0]
+    if k in ("==", "!="):
+        return [[k, a, c[2]] for a in _expr_variants(c[1])] + [[k, c[1], b] for b in _expr_variants(c[2])]
+    out = []
+    if k in ("alldiff", "circuit"):
+        out += [[k, c[1][:i] + c[1][i + 1:]] for i in range(len(c[1]))]
+    elif k in ("sumeq", "sumle", "sumge"):
+        out += [[k, c[1][:i] + c[1][i + 1:], c[2]] for i in range(len(c[1]))]
+        out += [[k, c[1], t] for t in (0, c[2] - 1, c[2] + 1) if abs(t) < abs(c[2])]
+    elif k == "noov":
+        out += [[k, c[1][:i] + c[1][i + 1:], c[2][:i] + c[2][i + 1:]] for i in range(len(c[1]))]
+        out += [[k, c[1], c[2][:i] + [c[2][i] - 1] + c[2][i + 1:]] for i in range(len(c[2])) if c[2][i] > 0]
+    elif k == "cum":
+        out += [[k, c[1][:i] + c[1][i + 1:], c[2][:i] + c[2][i + 1:], c[3][:i] + c[3][i + 1:], c[4]]
+                for i in range(len(c[1]))]
+        out += [[k, c[1], c[2][:i] + [c[2][i] - 1] + c[2][i + 1:], c[3], c[4]] for i in range(len(c[2])) if c[2][i] > 0]
+        out += [[k, c[1], c[2], c[3][:i] + [c[3][i] - 1] + c[3][i + 1:], c[4]] for i in range(len(c[3])) if c[3][i] > 0]
+        if c[4] > 0:
+            out.append([k, c[1], c[2], c[3], c[4] - 1])
+    return out
+
+
+def _used_vars(c, acc):
+    if c[0] in ("==", "!="):
+        def walk(e):
+            if e[0] == "v":
+                acc.add(e[1])
+            elif e[0] != "c":
+                walk(e[1])
+                walk(e[2])
+        walk(c[1])
+        walk(c[2])
+    else:
+        acc.update(c[1])
+
+
+def _renumber(c, mp):
+    if c[0] in ("==", "!="):
+        def walk(e):
+            if e[0] == "v":
+                return ["v", mp[e[1]]]
+            if e[0] == "c":
+                return e
+            return [e[0], walk(e[1]), walk(e[2])]
+        return [c[0], walk(c[1]), walk(c[2])]
+    return [c[0], [mp[i] for i in c[1]]] + list(c[2:])
+
+
+def shrink_candidates(case):
+    """One-step smaller cases (each JSON-able like `case`); planted assignments are dropped."""
+    base = {k: v for k, v in case.items() if k not in ("plant",)}
+    out = []
+
+    def mk(**kw):
+        d = dict(base)
+        d.update(kw)
+        out.append(d)
+
+    cons = case["cons"]
+    for i in range(len(cons)):  # drop a constraint
+        mk(cons=cons[:i] + cons[i + 1:])
+    if case.get("hints"):
+        mk(hints=None)
+        for k in case["hints"]:
+            mk(hints={a: b for a, b in case["hints"].items() if a != k})
+    if case.get("hidden"):
+        mk(hidden=[])
+    if case["limit"] != 1:
+        mk(limit=1)
+    used = set()
+    for c in cons:
+        _used_vars(c, used)
+    n = len(case["vars"])
+    for i in range(n):  # drop an unused variable (and renumber)
+        if i not in used and n > 1:
+            mp = {j: (j if j < i else j - 1) for j in range(n) if j != i}
+            hints = case.get("hints")
+            if hints:
+                hints = {(f"x{mp[int(k[1:])]}" if k[1:].isdigit() and int(k[1:]) in mp and k.startswith("x") else k): v
+                         for k, v in hints.items() if k != f"x{i}"}
+            mk(vars=case["vars"][:i] + case["vars"][i + 1:], cons=[_renumber(c, mp) for c in cons], hints=hints,
+               hidden=[mp[j] for j in (case.get("hidden") or []) if j != i])
+    for i, (lb, ub) in enumerate(case["vars"]):  # shrink a domain
+        if ub > lb:
+            mk(vars=case["vars"][:i] + [[lb + 1, ub]] + case["vars"][i + 1:])
+            mk(vars=case["vars"][:i] + [[lb, ub - 1]] + case["vars"][i + 1:])
+    for i, c in enumerate(cons):  # simplify a constraint
+        for c2 in _con_variants(c):
+            mk(cons=cons[:i] + [c2] + cons[i + 1:])
+    # keep only candidates the real operators can build
+    good = []
+    for d in out:
+        try:
+            proto_model(d)
+            good.append(d)
+        except (TypeError, NotProto, IndexError, ValueError):
+            pass
+    return good
+
+
+def minimise(case, fails_with, rounds=40, per_round=80):
+    """Greedy shrinking: `fails_with(cases) -> [bool]` says which candidates still show the same symptom.
+    Returns (smallest case found, number of accepted steps)."""
+    steps = 0
+    for _ in range(rounds):
+        cands = shrink_candidates(case)[:per_round]
+        if not cands:
+            break
+        verdicts = fails_with(cands)
+        nxt = next((c for c, v in zip(cands, verdicts) if v), None)
+        if nxt is None:
+            break
+        case = nxt
+        steps += 1
+    return case, steps
 
 
 __all__ = [n for n in dir() if not n.startswith("__")]
